@@ -282,6 +282,12 @@ impl<A, C: Clock, F: Filter, R, S> Port<'_, Running, A, R, C, F, S> {
                 log::error!(
                     "Responses from multiple devices to peer delay request, disabling port!"
                 );
+                // This exchange was answered by more than one responder: it must
+                // not complete later and recover the port.
+                self.peer_delay_state = PeerDelayState::PostMeasurement {
+                    id,
+                    responder_identity: identity,
+                };
                 self.set_forced_port_state(PortState::Faulty);
                 actions![]
             }
@@ -345,6 +351,12 @@ impl<A, C: Clock, F: Filter, R, S> Port<'_, Running, A, R, C, F, S> {
                 log::error!(
                     "Responses from multiple devices to peer delay request, disabling port!"
                 );
+                // This exchange was answered by more than one responder: it must
+                // not complete later and recover the port.
+                self.peer_delay_state = PeerDelayState::PostMeasurement {
+                    id,
+                    responder_identity: identity,
+                };
                 self.set_forced_port_state(PortState::Faulty);
                 actions![]
             }
